@@ -70,10 +70,10 @@ var srvInfoWatched = map[string]string{
 	"started protocol":               "handshake_completed",
 	"new peer connected":             "peer_connected",
 	"not all headers were processed": "headers_truncated",
-	"changing dbft view":      "view_changed",
-	"missing tx":              "consensus_missing_tx",
-	"sending RecoveryMessage": "recovery_message_sent",
-	"sending RecoveryRequest": "recovery_request_sent",
+	"changing dbft view":             "view_changed",
+	"missing tx":                     "consensus_missing_tx",
+	"sending RecoveryMessage":        "recovery_message_sent",
+	"sending RecoveryRequest":        "recovery_request_sent",
 }
 
 // reasonClass strips what varies (numbers, hashes) from a disconnect reason.
